@@ -159,7 +159,7 @@ P('C16', 'other', ['core.core_stab', 'core.core_stab.matrix', 'transformation.or
   '3000, total norms 2^+-30000 against an unbounded-exponent reference.',
   NOTE_T1 + NOTE_T3, 'deductive VCs + bounded big-exponent reference', [])
 
-P('C17', 'other', ['grid.ind_tt_to_qtt.gate', 'core.core_tt_to_qtt.gate', 'grid.ind_tt_to_qtt', 'grid.ind_qtt_to_tt'], 10, [],
+P('C17', 'other', ['grid.ind_tt_to_qtt.gate', 'core.core_tt_to_qtt.gate', 'svd.matrix_svd', 'grid.ind_tt_to_qtt', 'grid.ind_qtt_to_tt'], 10, [],
   'Contract-based: ValueError iff the mode size is not a power of two; shape of the results; single index = batch of one. Bounded: '
   'exhaustive bit maps for q*d <= 10/12, TT<->QTT conversions.', NOTE_T1 + NOTE_T3, 'deductive VCs + exhaustive enumeration', [])
 
@@ -177,7 +177,7 @@ P('C19', 'other', ['utils._vector_index_prepare', 'utils._vector_index_expand', 
   'ValueError iff not representable), vector_delta / delta element pattern, const without zero list. Bounded: exhaustive positions '
   'q<=4/6, zero lists, poly, random constructors.', NOTE_T1 + NOTE_T3, 'deductive VCs (loop invariants, induction) + exhaustive enumeration', [])
 
-P('C20', 'other', ['svd.svd_incomplete.shapes', 'sig.svd'], 5, ['L-CROSS'],
+P('C20', 'other', ['svd.svd_incomplete.shapes', 'svd.matrix_skeleton.abs.l', 'svd.matrix_skeleton.abs.r', 'svd.matrix_skeleton.abs.m', 'sig.svd'], 5, ['L-CROSS'],
   'Contract-based: exception-freedom and shapes of svd_incomplete given the layout contract of sample_tt (the 3-D array reaching '
   'lstsq was a failed obligation). Bounded: recovery of Gaussian rank-rho tensors (an almost-all statement).',
   NOTE_T1 + NOTE_T3, 'deductive VCs + bounded recovery checks', [])
